@@ -536,6 +536,22 @@ def r4(ctx):
          'a zk:// URI yields a provider for the given hosts, path and optional endpoint name')
   sp = prog.func('scales/loadbalancer/serverset.py', 'StaticServerSetProvider.GetServers')
   ctx.ob('C20.R4', sp, 'static provider returns the servers it was given', U(sp.node.body[-1]).replace(' ', '') == 'returnself._servers', 'GetServers changed', 'endpoints are returned as listed', nontrivial=False)
+  si = prog.func('scales/loadbalancer/serverset.py', 'StaticServerSetProvider.__init__')
+  sparam = si.params[1] if len(si.params) > 1 else 'servers'
+  stores = [st for st in walk_no_nested(si.node) if isinstance(st, ast.Assign) and U(st.targets[0]) == 'self._servers']
+
+  def keeps_all(v):
+    # the listed servers one by one, in order: the argument itself or a list()/tuple() copy of it (no set / dict keys / filter / sorted)
+    if isinstance(v, ast.Name):
+      return v.id == sparam
+    if isinstance(v, ast.Call) and isinstance(v.func, ast.Name) and v.func.id in ('list', 'tuple') and len(v.args) == 1 and not v.keywords:
+      return keeps_all(v.args[0])
+    if isinstance(v, ast.ListComp) and len(v.generators) == 1 and not v.generators[0].ifs and U(v.elt) == U(v.generators[0].target):
+      return keeps_all(v.generators[0].iter)
+    return False
+  ctx.ob('C20.R4', si, 'static provider keeps every listed server, in order', len(stores) == 1 and keeps_all(stores[0].value),
+         'self._servers is set from %s' % [U(st.value) for st in stores],
+         'a tcp:// URI yields exactly the listed endpoints: one per listed entry (servers compare equal by host and port, so a set / dict-key copy silently drops a repeated entry)')
   zi = prog.func('scales/loadbalancer/serverset.py', 'ZooKeeperServerSetProvider.__init__')
   ok = zi.params[1:3] == ['zk_servers_or_client', 'zk_path'] and 'endpoint_name' in zi.params
   ctx.ob('C20.R4', zi, 'zk provider signature (hosts, path, ..., endpoint_name)', ok, 'signature is %s' % zi.params, 'positional hosts and path', nontrivial=False)
